@@ -17,6 +17,7 @@ fn weights() -> Weights {
         (2, DeleteVal),
         (5, Update),
         (4, Upsert),
+        (3, PartialUpsert),
         (10, Compact),
         (4, CreateIndex),
         (2, OptimizeIndices),
